@@ -1,23 +1,32 @@
 import Driver.Proto
 import Driver.OpsTime
+import Driver.OpsBattery
 
 namespace Driver
 
-def dispatch (line : String) : String :=
-  match line.splitOn " " with
-  | "time" :: args => (opsTime args).getD "bad-op"
-  | _ => "bad-op"
+structure DState where
+  bat : Option BatCtx := none
 
-partial def loop (h : IO.FS.Stream) (out : IO.FS.Stream) : IO Unit := do
+def step (st : DState) (line : String) : DState × String :=
+  match line.splitOn " " with
+  | "time" :: args => (st, (opsTime args).getD "bad-op")
+  | "bat" :: args =>
+      match opsBattery st.bat args with
+      | some (b, out) => ({ st with bat := b }, out)
+      | none => (st, "bad-op")
+  | _ => (st, "bad-op")
+
+partial def loop (h : IO.FS.Stream) (out : IO.FS.Stream) (st : DState) : IO Unit := do
   let line ← h.getLine
   if line.isEmpty then return ()
   let l := line.trimAscii.toString
-  out.putStrLn (dispatch l)
-  loop h out
+  let (st', o) := step st l
+  out.putStrLn o
+  loop h out st'
 
 end Driver
 
 def main : IO Unit := do
   let out ← IO.getStdout
-  Driver.loop (← IO.getStdin) out
+  Driver.loop (← IO.getStdin) out {}
   out.flush
